@@ -1,6 +1,7 @@
 package main
 
 import (
+	"go/token"
 	"fmt"
 	"strings"
 
@@ -14,6 +15,7 @@ func init() {
 }
 
 func runC02(c *Ctx) {
+	borrow(c, "O7", "C01", "O2", "IsTaskAllocatable accepting path", "the bind-versus-pipeline decision for a new GPU group relies on IsTaskAllocatable: a gpu-memory request must not pass it without an idle GPU")
 	p, fx := c.P, c.Fx
 	// O1: add/remove shared resources per group: inverse per status arm (arm-level: guards on other counters may differ)
 	add := c.Anchor("O1", pkgNodeInfo, "NodeInfo", "addSharedTaskResourcesPerPodGroup")
@@ -331,6 +333,46 @@ func runC02(c *Ctx) {
 			}
 		}
 		c.Check(n > 0 && bad == "", "O5", "MPT", funcKey(fn)+": shared ⇒ 0 whole GPUs", fn.Pos(), "IsSharedGPUAllocation ⇒ SetGPUs(0) before return", "a shared (fractional) allocation can be charged whole GPUs in the node's Used/Idle as well as through its group: "+bad)
+	}
+
+	// O8: the whole-GPU candidates offered to a fractional request are bounded by the node's free whole GPUs
+	if fg := c.Anchor("O8", "pkg/scheduler/framework", "", "filterGpusByEnoughResources"); fg != nil {
+		n := 0
+		for _, in := range instrsIn(fg, func(in ssa.Instruction) bool {
+			call, ok := in.(*ssa.Call)
+			if !ok {
+				return false
+			}
+			b, isB := call.Common().Value.(*ssa.Builtin)
+			if !isB || b.Name() != "append" {
+				return false
+			}
+			e := appendedElem(call.Common().Args[1])
+			k, isC := e.(*ssa.Const)
+			return isC && k.Value != nil && strings.Contains(k.Value.ExactString(), "-2")
+		}) {
+			n++
+			h := loopHeaderOf(in.Block())
+			bound := ""
+			ok := false
+			if h != nil {
+				for b := range naturalLoop(h) {
+					iff, isIf := b.Instrs[len(b.Instrs)-1].(*ssa.If)
+					if !isIf {
+						continue
+					}
+					bo, isBo := iff.Cond.(*ssa.BinOp)
+					if !isBo || bo.Op != token.LSS {
+						continue
+					}
+					bound = termOf(bo.Y).String()
+					ok = strings.Contains(bound, "param:0:node.Idle") && strings.Contains(bound, "param:0:node.Releasing") && !strings.Contains(bound, "param:1:")
+				}
+			}
+			c.Check(ok, "O8", "PROV", funcKey(fg)+": as many whole-GPU candidates as the node has idle or releasing GPUs", instrPos(in), trunc(bound, 160),
+				"the number of whole-GPU candidates offered for a fractional request is "+trunc(bound, 160)+" instead of the node's idle + releasing GPUs: that count is the only bound on how many new GPU groups are opened for one pod, so a multi-device request can be bound to more new groups than the node has free GPUs")
+		}
+		c.Floor("O8", "PROV whole-GPU candidate loops", n, 1)
 	}
 
 	// O6: a shared device counts as a host for a fractional request only through the full group test
